@@ -113,6 +113,13 @@ def load_variants():
             continue
         vs.append({"id": "seed-" + os.path.basename(d), "expect": "fire", "props": list(m["detected_by"]), "patch": os.path.join(d, "patch.diff"),
                    "rules": m.get("rules", {}), "note": m.get("what", "")})
+    # behaviour-preserving refactorings written by sub-agents (refactorings/<id>-<k>/): every check stays silent; a check
+    # listed under allowed_errors may answer exit 2 (cannot read the new form), which is recorded and is not an alarm
+    for mp in sorted(glob.glob(os.path.join(VERIF, "refactorings", "*", "meta.json"))):
+        m = json.load(open(mp))
+        d = os.path.dirname(mp)
+        props = [p for p in allp if p not in m.get("allowed_errors", [])]
+        vs.append({"id": "refac-" + os.path.basename(d), "expect": "silent", "props": props, "patch": os.path.join(d, "patch.diff"), "note": m.get("what", "")})
     return vs
 
 
